@@ -11,14 +11,13 @@ import Penguin.Lemmas.MuxStep
 namespace Penguin.C10
 open Penguin Penguin.Mux
 
-/-- A running endpoint (Multiplexor alive, outbound queue open, every open request that has a slot
-    is still being awaited by its caller) keeps serving after any frame whatsoever: processing a
-    frame never ends the receive loop. -/
-theorem frame_never_ends_connection (e : EP) (f : Frame) (ig : Bool)
-    (hm : e.muxAlive = true) (ho : e.outClosed = false)
-    (hreq : ∀ fid req, lookup e.flows fid = some (.requested req) → (e.opens.find? (·.req = req)).isSome) :
+/-- A running endpoint (its outbound queue open) keeps serving after any frame whatsoever, whatever
+    the application has done meanwhile (dropped handles, cancelled open requests, even dropped the
+    Multiplexor — that ends the task through its own orderly path): processing a frame never ends the
+    receive loop. -/
+theorem frame_never_ends_connection (e : EP) (f : Frame) (ig : Bool) (ho : e.outClosed = false) :
     (processFrame e f ig).2.2 = none :=
-  Mux.processFrame_continues e f ig hm ho hreq
+  Mux.processFrame_continues e f ig ho
 
 /-! #### The reply table (PROTOCOL.md): what is put on the outbound queue, per opcode × slot state -/
 
@@ -84,7 +83,7 @@ theorem invalid_frame_resolves_everything (e : EP) (err : DecErr) :
     let r := windDown e false (.invalidFrame err)
     r.1.dead = true ∧ r.1.flows = [] ∧ (∀ q ∈ r.1.opens, q.req ∈ r.1.retryq) ∧ r.1.park = none ∧
     r.2.getLast? = some (.exit (.invalidFrame err)) :=
-  Mux.windDown_error_resolves e false (.invalidFrame err) (by intro h; cases h)
+  Mux.windDown_error_resolves e (.invalidFrame err) (by intro h; cases h)
 
 /-! Non-vacuity -/
 example : (processFrame { opts := {} } (.push 7 [1]) false).1.outq = [.frame (.reset 7)] := by decide
